@@ -222,13 +222,30 @@ pub open spec fn fg_twin_link(a: &Module, b: &Module, r: &Module) -> bool {
     exists|bc: Module, b1f: Seq<Function>, b1g: Seq<Group>| #[trigger] fg_link_at(a, b, r, &bc, b1f, b1g)
 }
 
-/// the witnesses are PRECONDITIONS (a step of merge_modules that does not establish them fails a contract-level obligation)
-pub proof fn lemma_fg_link_intro(a: &Module, b: &Module, r: &Module, bc: &Module, b1f: Seq<Function>, b1g: Seq<Group>)
+/// introduction of `fg_twin_link` at the end of merge_modules: ONE lemma call whose PRECONDITIONS are the facts the driver calls must have
+/// established (oi: A as merge_objects received it, bc / bf / bg: B as merge_objects / merge_function / merge_group received it), so that a
+/// step of merge_modules that does not establish them fails one contract-level obligation
+pub proof fn lemma_fg_link_final(a: &Module, b: &Module, r: &Module, oi: &Module, bc: &Module, bf: &Module, bg: &Module)
     requires
-        fg_link_at(a, b, r, bc, b1f, b1g),
+        same_names(b.axis_pts@, bc.axis_pts@),
+        same_names(b.blob@, bc.blob@),
+        same_names(b.characteristic@, bc.characteristic@),
+        same_names(b.instance@, bc.instance@),
+        same_names(b.measurement@, bc.measurement@),
+        function_merged(a.function@, bf.function@, r.function@),
+        group_merged(a.group@, bg.group@, r.group@),
+        ns_objects(oi) == ns_objects(a),
+        fg_same(b.function@, b.group@, bc.function@, bc.group@),
+        objects_all_twins(oi, bc) ==> fg_same(bc.function@, bc.group@, bf.function@, bf.group@),
+        bg.group@ == bf.group@,
     ensures
         fg_twin_link(a, b, r),
 {
+    if objects_all_twins(a, bc) {
+        assert(objects_all_twins(oi, bc));
+        lemma_fg_same_trans(b.function@, b.group@, bc.function@, bc.group@, bf.function@, bf.group@);
+    }
+    assert(fg_link_at(a, b, r, bc, bf.function@, bg.group@));
 }
 
 /// C08 for the whole driver: the per-kind contracts assembled (a = A before, b = B before, r = A after)
@@ -243,11 +260,7 @@ rep("""        assert(group_merged(o0.group@, mi_merge_group.group@, orig_module
         assert(group_merged_upto(o0.group@, m0.group@, orig_module.group@));
 """, """        assert(group_merged(o0.group@, mi_merge_group.group@, orig_module.group@));
         assert(group_merged_upto(o0.group@, m0.group@, orig_module.group@));
-        if objects_all_twins(&o0, &mi_merge_objects) {
-            assert(objects_all_twins(&oi_merge_objects, &mi_merge_objects));
-            lemma_fg_same_trans(m0.function@, m0.group@, mi_merge_objects.function@, mi_merge_objects.group@, mi_merge_function.function@, mi_merge_function.group@);
-        }
-        lemma_fg_link_intro(&o0, &m0, orig_module, &mi_merge_objects, mi_merge_function.function@, mi_merge_group.group@);
+        lemma_fg_link_final(&o0, &m0, orig_module, &oi_merge_objects, &mi_merge_objects, &mi_merge_function, &mi_merge_group);
 """)
 
 # E9: drivers that do not call a rename_* function need reflexivity
